@@ -137,16 +137,18 @@ func c07Fire(r *R) {
 				}
 				n++
 				key := fmt.Sprintf("checkEvents/path#%d", n)
-				progress, pause := pt.RetDesc(1), pt.RetDesc(0)
-				okP := progress == "false" || (progress == u+"#0" && pt.Has("+unique") && pt.Has("+"+u+"#1==nil"))
+				// a returned flag the path has already branched on is the constant it was found to be
+				progress, pause := truth(pt, pt.RetDesc(1)), truth(pt, pt.RetDesc(0))
+				adv := pt.Has("+unique") && pt.Has("+"+u+"#1==nil")
+				okP := progress == "false" || (progress == u+"#0" && adv) || (progress == "true" && adv && pt.Has("+"+u+"#0"))
 				r.c.Check(okP, "C07.3", key+"/progress", r.p.Pos(ce.Pos()), "progress only for a unique block that advanced the mark", "checkEvents reports progress = "+progress+" on "+pt.Describe())
 				okZ := pause == "false" || (pause == pr+"#0" && pt.Has("+unique") && pt.Has("+"+u+"#0") && pt.Has("-readProgress==nil"))
 				r.c.Check(okZ, "C07.3", key+"/pause", r.p.Pos(ce.Pos()), "pause only from the limit check of a counted block", "checkEvents reports pause = "+pause+" on "+pt.Describe())
 				if pt.Has("-unique") {
 					r.c.Check(progress == "false" && pause == "false" && len(pt.Evs) == 0, "C07.3", key+"/non-unique", r.p.Pos(ce.Pos()), "non-unique block: no progress, caches untouched", "a non-unique block touches the caches or reports progress: "+pt.Describe())
 				}
-				if pt.Has("+unique") && pt.Has("+"+u+"#0") && pt.Has("+"+u+"#1==nil") {
-					r.c.Check(progress == u+"#0", "C07.3", key+"/counted", r.p.Pos(ce.Pos()), "an advancing unique block is reported as progress", "a unique block that advanced the mark is not reported as progress: "+pt.Describe())
+				if adv && pt.Has("+"+u+"#0") {
+					r.c.Check(progress == "true", "C07.3", key+"/counted", r.p.Pos(ce.Pos()), "an advancing unique block is reported as progress", "a unique block that advanced the mark is not reported as progress: "+pt.Describe())
 				}
 			}
 			r.c.Floor("C07.3", n, 5, "paths of checkEvents")
